@@ -125,6 +125,36 @@ def match_known(ctx, text, problem):
 KNOWN_CLASSES = {}
 
 
+def _atomic_multi(text, problem):
+    """the declaration uses an _Atomic(...) type specifier and has more than one declarator"""
+    m = re.search(r"_Atomic\s*\(", text)
+    if not m:
+        return False
+    # declarator list after the closing parenthesis of the specifier, up to the ';'
+    depth, i = 0, m.end() - 1
+    while i < len(text):
+        if text[i] == "(":
+            depth += 1
+        elif text[i] == ")":
+            depth -= 1
+            if depth == 0:
+                break
+        i += 1
+    rest = text[i + 1:].split(";")[0]
+    d = 0
+    for ch in rest:
+        if ch in "([{":
+            d += 1
+        elif ch in ")]}":
+            d -= 1
+        elif ch == "," and d == 0:
+            return True
+    return False
+
+
+KNOWN_CLASSES["atomic_specifier_multi_declarator"] = _atomic_multi
+
+
 def known_class(name):
     def deco(fn):
         KNOWN_CLASSES[name] = fn
